@@ -330,7 +330,10 @@ func (vs *ValidatorStore) fetchPostponedUnstakes() error {
 		if err != nil {
 			return false
 		}
-		err = vs.HandleUnstake(*unstake, vs.lastHeight)
+		// the penalty of a verdict is not a transaction: the "2 blocks after a purge" rule does not apply
+		validator.Staking = *balance.NewAmountFromBigInt(big.NewInt(0).Sub(validator.Staking.BigInt(), unstake.Amount.BigInt()))
+		validator.Power = calculatePower(validator.Staking)
+		err = vs.set(*validator)
 		if err != nil {
 			logger.Errorf("Handle unstake for validator: %s failed, %s\n", validator.Address, err)
 			return false
